@@ -6,17 +6,23 @@ Programs == CASE Family = "nest" -> NestFamily(Depth, {2})
               [] Family = "ctrl" -> CtrlFamily({2, 5})
               [] Family = "nd" -> NdFamily({2, 3})
               [] Family = "ho" -> HoFamily(Depth, {2, 3})
+              [] Family = "threads2" -> ThreadFamily2
+              [] Family = "threads2small" -> ThreadFamily2Small
+              [] Family = "threads3" -> ThreadFamily3
+VARIABLES emitted,
+          sched      \* history: which thread took each step (the schedule handed to the baton scheduler of the replay)
 Init == MInit(Programs)
 Done == \A th \in Threads : result[th].k # "none"
 \* at the end of a behaviour the program, the model's result and the trace ids it handed out are exported for the replay
 Emit == /\ Done /\ Export
         /\ PrintT(ToJson([prog |-> prog, result |-> [th \in Threads |-> IF result[th].k = "val" THEN [k |-> "val", v |-> Plain(result[th].v)] ELSE result[th]],
-                          log |-> log, den |-> [th \in Threads |-> Den(prog, th)]]))
+                          log |-> log, den |-> [th \in Threads |-> Den(prog, th)], sched |-> sched]))
         /\ UNCHANGED vars
-VARIABLE emitted
-Next == \/ (MNext /\ emitted' = emitted)
-        \/ (~emitted /\ Emit /\ emitted' = TRUE)
-Spec == Init /\ emitted = FALSE /\ [][Next]_<<vars, emitted>>
+Next == \/ (\E th \in Threads : Step(th) /\ sched' = Append(sched, th) /\ emitted' = emitted)
+        \/ (~emitted /\ Emit /\ emitted' = TRUE /\ sched' = sched)
+Spec == Init /\ emitted = FALSE /\ sched = <<>> /\ [][Next]_<<vars, emitted, sched>>
+\* exhaustive interleaving checks do not care how a state was reached
+NoSched == <<vars, emitted>>
 
 \* C07 / C08 / C14 / C19: the machine's result is the program's denotational meaning
 ResultIsDen == \A th \in Threads : result[th].k # "none" =>
